@@ -73,3 +73,7 @@ Fixpoint list_update {A} (l : list A) (i : nat) (x : A) : list A :=
   | _ :: t, O => x :: t
   | h :: t, S j => h :: list_update t j x
   end.
+
+(* list indexing by a (possibly huge) N without building a huge nat *)
+Definition nth_N {A} (l : list A) (i : N) : option A :=
+  if N.ltb i (N.of_nat (List.length l)) then nth_error l (N.to_nat i) else None.
